@@ -187,9 +187,22 @@ type consCase struct {
 
 // C06: consumer-side range/pull code sees exactly what the generator yields.
 func C06(c *vf.Check) {
-	consts := map[string]string{"MaxSize": "3", "TapeLen": tier(c, "3", "4")}
+	res, totalCompared, totalFail, nNontrivial, consts := consFamily(c, false)
+	c.Cov["states"] = res.Distinct
+	c.Cov["transitions"] = res.Generated
+	c.Cov["traces_validated_against_impl"] = int64(totalCompared)
+	c.Cov["evaluations"] = int64(totalCompared)
+	c.Cov["distinct_nontrivial"] = int64(nNontrivial)
+	c.Cov["disagreements_checked"] = int64(totalFail)
+	c06Tail(c, consts)
+}
+
+// consFamily: the consumer functions of MC_Cons.tla through the real tool. shadowOnly (C03): only the consumers in
+// which a loop body re-declares the loop variable (sh = 1, 2), default configuration only.
+func consFamily(c *vf.Check, shadowOnly bool) (res *vf.TLCResult, totalCompared, totalFail, nNontrivial int, consts map[string]string) {
+	consts = map[string]string{"MaxSize": "3", "TapeLen": tier(c, "3", "4")}
 	var cases []consCase
-	res := c.S.RunTLC(vf.TLCRun{Module: "MC_Cons", Cfg: "MC_Cons.cfg", Consts: consts, Timeout: tier(c, 10*time.Minute, 90*time.Minute),
+	res = c.S.RunTLC(vf.TLCRun{Module: "MC_Cons", Cfg: "MC_Cons.cfg", Consts: consts, Timeout: tier(c, 10*time.Minute, 90*time.Minute),
 		OnCase: func(raw []byte) {
 			var cc consCase
 			vf.Must(json.Unmarshal(raw, &cc))
@@ -200,6 +213,15 @@ func C06(c *vf.Check) {
 		}})
 	res.MustComplete("MC_Cons")
 	c.Note("TLC MC_Cons: %d states, %d (consumer, tape) cases (%.0fs)", res.Distinct, res.Cases, res.Wall.Seconds())
+	if shadowOnly {
+		var keep []consCase
+		for _, cc := range cases {
+			if js := canon(cc.Main); strings.Contains(js, `"sh":1`) || strings.Contains(js, `"sh":2`) {
+				keep = append(keep, cc)
+			}
+		}
+		cases = keep
+	}
 
 	type cfg struct {
 		holder, gen string
@@ -211,8 +233,10 @@ func C06(c *vf.Check) {
 		cfgs = append(cfgs, cfg{h, "func", sub})
 	}
 	cfgs = append(cfgs, cfg{"var", "method", sub}, cfg{"field", "generic", sub})
+	if shadowOnly {
+		cfgs = cfgs[:1]
+	}
 
-	totalCompared, totalFail := 0, 0
 	nontrivial := map[string]bool{}
 	for _, cf := range cfgs {
 		// select cases of this configuration
@@ -359,14 +383,13 @@ func C06(c *vf.Check) {
 		}
 		c.Add("programs", int64(len(units)))
 		c.Add("compiler_runs", int64(runs))
-		c.Note("C06 [%s]: %d consumers, %d cases", what, len(units), len(sel))
+		c.Note("%s consumers [%s]: %d consumers, %d cases", c.ID, what, len(units), len(sel))
 	}
-	c.Cov["states"] = res.Distinct
-	c.Cov["transitions"] = res.Generated
-	c.Cov["traces_validated_against_impl"] = int64(totalCompared)
-	c.Cov["evaluations"] = int64(totalCompared)
-	c.Cov["distinct_nontrivial"] = int64(len(nontrivial))
-	c.Cov["disagreements_checked"] = int64(totalFail)
+	nNontrivial = len(nontrivial)
+	return
+}
+
+func c06Tail(c *vf.Check, consts map[string]string) {
 	c.Cov["rule"] = "every consumer function up to MaxSize statements (pull, range := / = with guarded break/continue/return, nested ranges, a body re-declaring the loop variable, final observation of the function-level v) over two live iterators x every tape; default configuration exhaustively, a covering subset under each other way of holding the iterators (struct field, slice, map, closure result, function parameter) and of declaring the generators (method, generic); the whole recorder log (generator-side effects included: over-pulling is visible) is compared"
 	c.Cov["exhaustive"] = true
 	c.Cov["bounds"] = consts
